@@ -1,4 +1,5 @@
 import EdVerif.Proofs.PointLayerDecode
+import EdVerif.Proofs.Closing
 /-!
 C04 — point decoding accepts exactly the documented set and yields the right point.
 
@@ -6,30 +7,30 @@ C04 — point decoding accepts exactly the documented set and yields the right p
 mod `p` (`yOf x`; non-canonical `y ∈ [p, 2^255)` included), are the `y`-coordinate of a curve
 point; the result is then a valid point with that `y` whose `x` has the parity given by bit 255
 (or `x = 0`, where a set sign bit is accepted). Every other input is rejected.
-Hypotheses: `ff : FieldFacts`, `sf : SqrtRatioDecodeFacts` (closed by the field layer).
+Hypotheses: `fieldFacts : FieldFacts`, `sqrtFacts : SqrtRatioDecodeFacts` (closed by the field layer).
 -/
 namespace EdVerif.Props
 open EdVerif.Impl EdVerif.Prims EdVerif.Proofs EdVerif.Spec
 
-theorem C04 (ff : FieldFacts) (sf : SqrtRatioDecodeFacts) {x : Bytes} (hb : IsBytes x) :
+theorem C04 {x : Bytes} (hb : IsBytes x) :
     (∃ P, Point.setBytes x = some P) ↔ x.size = 32 ∧ ∃ xx : F, Spec.onCurve xx (yOf x) :=
-  Proofs.C04 ff sf hb
+  Proofs.C04 fieldFacts sqrtFacts hb
 
-theorem C04_value (ff : FieldFacts) (sf : SqrtRatioDecodeFacts) {x : Bytes} (hb : IsBytes x)
+theorem C04_value {x : Bytes} (hb : IsBytes x)
     {P : P3} (h : Point.setBytes x = some P) :
     P.Valid ∧ P.toEd.y = yOf x ∧ (P.toEd.x = 0 ∨ P.toEd.x.val % 2 = x[31]! / 128) :=
-  Proofs.C04_value ff sf hb h
+  Proofs.C04_value fieldFacts sqrtFacts hb h
 
 /-- any length other than 32 is rejected -/
-theorem C04_len (ff : FieldFacts) {x : Bytes} (hs : x.size ≠ 32) : Point.setBytes x = none :=
-  Proofs.setBytes_len ff hs
+theorem C04_len {x : Bytes} (hs : x.size ≠ 32) : Point.setBytes x = none :=
+  Proofs.setBytes_len fieldFacts hs
 
 /-- the package-level points, decoded from their encodings at initialisation -/
-theorem C04_identity (ff : FieldFacts) (sf : SqrtRatioDecodeFacts) :
-    Point.identity.Valid ∧ Point.identity.toEd = 0 := Proofs.identity_valid ff sf
+theorem C04_identity :
+    Point.identity.Valid ∧ Point.identity.toEd = 0 := Proofs.identity_valid fieldFacts sqrtFacts
 
-theorem C04_generator (ff : FieldFacts) (sf : SqrtRatioDecodeFacts) :
-    Point.generator.Valid ∧ Point.generator.toEd = Proofs.basepoint := Proofs.generator_valid ff sf
+theorem C04_generator :
+    Point.generator.Valid ∧ Point.generator.toEd = Proofs.basepoint := Proofs.generator_valid fieldFacts sqrtFacts
 
 /-- non-vacuity: the accepting side is inhabited (the encoding of the identity) -/
 example : IsBytes Point.identityBytes ∧ Point.identityBytes.size = 32 ∧
